@@ -424,6 +424,8 @@ func PublishContext[T any](bus *EventBus, ctx context.Context, event T) {
 				if !filterFunc(event) {
 					continue // Skip this handler as event doesn't match filter
 				}
+			} else if !callFilterDynamic(h.filter, event) {
+				continue // Filter of the event's dynamic type (event published as an interface value)
 			}
 		}
 
@@ -632,6 +634,23 @@ func Async() SubscribeOption {
 	return func(h *internalHandler) {
 		h.async = true
 	}
+}
+
+// callFilterDynamic evaluates a filter whose parameter type is not the static type of the
+// publish call, as happens when an event is published through an interface value
+// (Publish[any](bus, ev)): handlers are selected by the event's dynamic type, so their
+// filters must be consulted with it too. A predicate that cannot take the event is ignored.
+func callFilterDynamic(filter any, event any) bool {
+	fv := reflect.ValueOf(filter)
+	ev := reflect.ValueOf(event)
+	if fv.Kind() != reflect.Func || !ev.IsValid() {
+		return true
+	}
+	ft := fv.Type()
+	if ft.NumIn() != 1 || ft.NumOut() != 1 || ft.Out(0).Kind() != reflect.Bool || !ev.Type().AssignableTo(ft.In(0)) {
+		return true
+	}
+	return fv.Call([]reflect.Value{ev})[0].Bool()
 }
 
 // Sequential ensures the handler executes sequentially (with mutex)
